@@ -595,7 +595,10 @@ class MultiStream(Stream):
         """
         phases = self.phases
         if energy_balance or isinstance(s1, MultiStream) or isinstance(s2, MultiStream):
-            s1.empty(); s2.empty() # All flows are overwritten; old contents may be in phases this stream does not have
+            # All flows are overwritten; old contents may be in phases this stream does not have
+            # (an outlet may be this stream itself, as in separations.mix_and_split: it must not be emptied)
+            if s1 is not self: s1.empty()
+            if s2 is not self: s2.empty()
             s1.phases = phases
             s2.phases = phases
             for phase in phases: self[phase].split_to(s1[phase], s2[phase], split)
